@@ -915,6 +915,11 @@ class Unit:
                 self.note_tmp_object(t, ct)
                 return '(&%s)' % t
             raise Unsupported('binding a reference to a temporary of kind %s (in %s)' % (s['kind'], self.cur))
+        sp = self.strip_tmp(a)
+        while sp['kind'] == 'ParenExpr': sp = self.strip_tmp(self.kids(sp)[0])
+        if sp['kind'] == 'ConditionalOperator' and sp.get('valueCategory') == 'lvalue':
+            c, t, f = self.kids(sp)      # C has no lvalue conditional: take the address in both arms
+            return '(%s ? %s : %s)' % (self.expr(c), self.addr_of(t), self.addr_of(f))
         x = self.expr(a)
         m = re.match(r'^\(\*([A-Za-z_]\w*)\)$', x)
         if m: return m.group(1)
@@ -984,6 +989,11 @@ class Unit:
             obj = b if me.get('isArrow') else self.addr_text(b)
             self.need_func(cid)
             cn = self.func_cname(cid)
+            # child-view contracts (DESIGN 3.4): a recursive call through a child pointer is printed as a call of the
+            # child-view symbol named by the spec; the symbol is declared (with its contract) by the spec
+            alt = self.spec.get(('call_as', self.cur, cn))
+            if alt and not (base.get('kind') == 'CXXThisExpr' or self.strip(base).get('kind') == 'CXXThisExpr'):
+                self.used_keys.add(('call_as', self.cur, cn)); cn = alt
             self.count_call(cn)
             fq = self.by_id[cid]['type']['qualType']
             call = '%s(%s)' % (cn, ', '.join([obj] + self.call_args(fq, ks[1:])))
@@ -1600,7 +1610,7 @@ class Unit:
             self.emit_func(cid)
         # unresolved spec keys -> error (a renamed function / changed loop count must not silently drop a contract)
         for key in self.spec:
-            if key[0] in ('contract', 'loop', 'ghost') and key not in self.used_keys:
+            if key[0] in ('contract', 'loop', 'ghost', 'call_as') and key not in self.used_keys:
                 if key[0] == 'contract' and key[1] not in self.emitted_protos:
                     if self.spec.get(('optional', key[1])): continue
                 raise Unsupported('spec key %r does not resolve in the extracted code' % (key,))
